@@ -146,6 +146,7 @@ class Para:
         self.events = []   # ("c", ch) | ("ctl", name, param) | ("field", inst)
         self.runs = []     # dict(text=..., **charprops)
         self.ppr = {}
+        self.uinfo = []    # [\\u argument, fallback characters consumed, uc in force]
 
     def __repr__(self):
         return "Para(%r)" % self.text
@@ -320,7 +321,7 @@ def parse(data) -> Doc:
             p = Cell() if as_cell else Para()
         if as_cell and not isinstance(p, Cell):
             c = Cell()
-            c.text, c.events, c.runs = p.text, p.events, p.runs
+            c.text, c.events, c.runs, c.uinfo = p.text, p.events, p.runs, p.uinfo
             p = c
         p.ppr = dict(ppr)
         for r in p.runs:
@@ -400,6 +401,8 @@ def parse(data) -> Doc:
             if skip > 0 and a != "u":
                 # a control word inside the fallback counts as one character
                 skip -= 1
+                if para is not None and para.uinfo:
+                    para.uinfo[-1][1] += 1
                 if skip == 0:
                     last_u = None
                 continue
@@ -411,6 +414,8 @@ def parse(data) -> Doc:
                 doc.uvals.append(b)
                 last_u = b
                 skip = st.uc
+                if dest in ("body", "header", "footer"):
+                    cur_para().uinfo.append([b, 0, st.uc])
                 if dest in ("body", "header", "footer"):
                     if 0xD800 <= v <= 0xDBFF:
                         hi_surr = v
@@ -611,6 +616,8 @@ def parse(data) -> Doc:
         if k == "s":
             if skip > 0:
                 skip -= 1
+                if para is not None and para.uinfo:
+                    para.uinfo[-1][1] += 1
                 if skip == 0:
                     last_u = None
                 continue
@@ -632,6 +639,8 @@ def parse(data) -> Doc:
         if k == "x":
             if skip > 0:
                 skip -= 1
+                if para is not None and para.uinfo:
+                    para.uinfo[-1][1] += 1
                 if skip == 0:
                     last_u = None
                 continue
@@ -647,6 +656,8 @@ def parse(data) -> Doc:
                 take = min(skip, len(bs))
                 bs = bs[take:]
                 skip -= take
+                if para is not None and para.uinfo:
+                    para.uinfo[-1][1] += take
                 if skip == 0:
                     last_u = None
                 if not bs:
